@@ -49,6 +49,12 @@ CASES = [
     ('api-split/aggregate-or-distinct-evaluated-twice', 'api3', 'SELECT x, count(*) AS n0 FROM int3.te GROUP BY x', {},
      'for an api-type integration the fetch gets the target list but not GROUP BY / DISTINCT, and the sub-select evaluates the same targets again: aggregates are computed over the whole table in the fetch and once more over its single result row',
      'query_planner.py:plan_api_db_select'),
+    ('cte-shadow/own-source-table-pushdown-circular', 'default', 'WITH ta AS (SELECT id, x, y FROM int1.ta) SELECT ta.x, ta.y FROM ta', {},
+     'a CTE named like its own source table, whole statement sent to that integration: prepare_integration_select strips the qualifier of the source table, the fetch query becomes `WITH ta AS (SELECT … FROM ta) …`, a circular reference',
+     'query_planner.py:check_single_integration / prepare_integration_select'),
+    ('cte-shadow/qualified-table-in-default-namespace', 'default', 'WITH tb AS (SELECT id, x, y FROM int3.tf) SELECT tb.x, u.y FROM tb JOIN int1.tb AS u ON tb.id = u.id', {},
+     'a QUALIFIED table of the default namespace whose name equals a CTE name is replaced by the CTE rows (the real table is never fetched)',
+     'query_planner.py:get_integration_select_step (integration_name == default_namespace and table_name in cte_results)'),
     ('api-split/offset-after-limit', 'api3', 'SELECT x FROM int3.te', dict(limit=1, offset=1, order_pos=[0], order_sql=' ORDER BY x'),
      'for an api-type integration LIMIT goes into the fetch while OFFSET stays in the sub-select, so the offset is applied after the limit',
      'query_planner.py:plan_api_db_select'),
@@ -63,6 +69,8 @@ def small_contents(rng, tables):
                    for _ in range(rng.choice([0, 1, 1, 2]))] for t in tables}
 
 
+IDS = list(range(1, 14)) + [15, 16, 14]
+
 # signatures repaired in /repo (commit); their last witness is kept as a regression case
 FIXED = {'where/under-not': '8fa2a67', 'where/under-or-subselect': '1a1b62e', 'semi/right-full-join': '34967fc',
          'semi/under-not': '34967fc', 'onconst/right-full-join': '34967fc', 'onconst/under-not': '34967fc'}
@@ -75,7 +83,10 @@ def main():
         prev = {k['id']: k for k in json.load(open(os.path.join(ROOT, 'kf_proposed_C08.json')))}
     except Exception:
         prev = {}
-    for n, (sig, cat, body, kw, what, site) in enumerate(CASES, 1):
+    merged = {k['id']: k for k in json.load(open(os.path.join(ROOT, 'known_findings.json')))['findings'] if k['property'] == 'C08'}
+    for k, v in merged.items():
+        prev.setdefault(k, v)
+    for n, (sig, cat, body, kw, what, site) in zip(IDS, CASES):
         tabs = [(i, t) for (i, t) in g.TABLES if '%s.%s' % (i, t) in body]
         q = g.Q('kf', cat, body, tables=tabs, **kw)
         steps = c08.plan_for(q).steps
@@ -114,6 +125,10 @@ def main():
             witness=dict(query=q.to_json(), sql=q.sql, catalog=cat, contents=f['contents'], expected=f['expected'], actual=f['actual'],
                          exec_error=f['exec_error'], plan=c08.steps_text(steps))))
         print(sig, '|', q.sql, '|', [c for c in f['contents'] if c[2]], '| expected', f['expected'], 'actual', f['actual'], f['exec_error'] or '')
+    # only NEW or CHANGED entries (known_findings.json already holds the merged ones)
+    key = lambda e: (e['status'], e['sig'], e.get('commit'), e['witness']['sql'])
+    out = [e for e in out if e['id'] not in merged or key(e) != key(merged[e['id']])]
+    print('proposed:', [e['id'] for e in out])
     json.dump(out, open(os.path.join(ROOT, 'kf_proposed_C08.json'), 'w'), indent=1, ensure_ascii=False)
 
 
